@@ -1,7 +1,7 @@
 import math
 
 import numpy as np
-from shapely import Polygon, clip_by_rect
+from shapely import Polygon, clip_by_rect, remove_repeated_points
 from shapely.affinity import rotate
 
 from ..two_roll_pass import TwoRollPass
@@ -21,5 +21,8 @@ def out_cross_section3(rp: ThreeRollPass, width: float) -> Polygon:
     for _ in range(3):
         poly = clip_by_rect(poly, -math.inf, -math.inf, math.inf, width / 2)
         poly = rotate(poly, angle=120, origin=(0, 0))
+
+    # the three rotations leave vertices that coincide up to rounding; the zero-length edges between them may cross
+    poly = remove_repeated_points(poly, tolerance=1e-12 * poly.length)
 
     return refine_cross_section(poly)
